@@ -143,7 +143,9 @@ func (f *layersFam) liveStep(r *hx.Run, it scom.StoreIterator, last *[]byte, fir
 		*last = k
 		return fmt.Sprintf("t %s %s", hx.Hex(it.Key()), hx.Hex(it.Value()))
 	}
-	return fmt.Sprintf("f %s %s", hx.Hex(it.Key()), hx.Hex(it.Value()))
+	// after a false return Key()/Value() are not meaningful: a re-First that finds nothing leaves the previous key
+	// slice in place, and that slice aliases a goleveldb buffer that has been reused since
+	return "f"
 }
 
 func collectIter(it scom.StoreIterator) []kv {
